@@ -203,7 +203,7 @@ func writeEvidence(dir, prop, tier string, results []*HarnessResult, eng *Engine
 			"name": r.H.Name, "entry": r.H.Pkg + "." + r.H.Func, "paths": len(r.Paths), "path_status": r.Status,
 			"ssa_instructions": r.Instr, "queries_unsat": r.Queries[0], "queries_sat": r.Queries[1], "queries_unknown": r.Queries[2],
 			"solver_s": r.SolveTime.Seconds(), "wall_s": r.Wall.Seconds(), "reach_tags": r.Reached,
-			"bounds": map[string]interface{}{"unroll": r.H.Unroll, "bufmax": r.H.BufMax, "maxpaths": r.H.MaxPaths, "params": r.H.Params, "onlimit": r.H.OnLimit, "maporder": r.H.MapOrder},
+			"bounds":     map[string]interface{}{"unroll": r.H.Unroll, "bufmax": r.H.BufMax, "maxpaths": r.H.MaxPaths, "params": r.H.Params, "onlimit": r.H.OnLimit, "maporder": r.H.MapOrder},
 			"violations": len(r.Violations), "note": r.H.Note,
 		}
 		harn = append(harn, hinfo)
@@ -241,13 +241,13 @@ func writeEvidence(dir, prop, tier string, results []*HarnessResult, eng *Engine
 	cov := map[string]interface{}{
 		"states": states, "transitions": trans, "traces_validated_against_impl": 0,
 		"samples": samples, "harnesses": harn,
-		"queries": map[string]interface{}{"unsat": queries[0], "sat": queries[1], "unknown": queries[2], "solver_s": solveT.Seconds(), "solver": solver},
+		"queries":            map[string]interface{}{"unsat": queries[0], "sat": queries[1], "unknown": queries[2], "solver_s": solveT.Seconds(), "solver": solver},
 		"assertions_checked": asserts,
-		"functions_encoded": fl,
-		"engine":            "gosym: go/ssa symbolic executor -> SMT-LIB2 (QF_AUFBV), regenerated from the working tree on this run",
-		"load_s":            eng.loadTime.Seconds(),
-		"explanation":       "states = explored symbolic paths; transitions = SSA instructions executed symbolically; every assertion, panic condition and bound is a separate solver query",
-		"programs":          len(results), "disagreements_checked": asserts,
+		"functions_encoded":  fl,
+		"engine":             "gosym: go/ssa symbolic executor -> SMT-LIB2 (QF_AUFBV), regenerated from the working tree on this run",
+		"load_s":             eng.loadTime.Seconds(),
+		"explanation":        "states = explored symbolic paths; transitions = SSA instructions executed symbolically; every assertion, panic condition and bound is a separate solver query",
+		"programs":           len(results), "disagreements_checked": asserts,
 	}
 	ev := map[string]interface{}{
 		"property_id": prop, "tier": tier, "seed": 0, "level": level, "coverage": cov,
